@@ -18,12 +18,23 @@
   bound to a local (`let mask = (N - 1) as u64`).  Loop bodies are never restated (`_` + `fun _ _ => rfl` against the
   projection-form bodies `mixBody`, `fillBody`, …).  The three loops that a maintainer may write with an index or with
   iterators are proved in both forms and tried in turn (`first`): `block_xor` (`enumerate` / `iter_mut().zip`), and the
-  byte↔word loops of `smix` (running offset `j += 4` / `chunks_exact(4)`, `chunks_exact_mut(4)`).  Still positional: the
-  arithmetic form of the bounds (`32 * r`, `i * R`, `2 * r - 1`): the loop lemmas are applied by syntactic rewriting.
+  byte↔word loops of `smix` (running offset `j += 4` / `chunks_exact(4)`, `chunks_exact_mut(4)`), and the lane loop of `scrypt`
+  (`for i in 0..p` on `&mut b[i * 128 * r..]` / `for lane in b.chunks_exact_mut(128 * r)`).
+  Index arithmetic is not matched syntactically: every counted loop is first brought to the normal form
+  `Rs.loopFrom 1 (fun k => body (lo + step * k)) count 0` (`forRange_norm`, `forStep_norm`), and the loop lemmas take the
+  count, the block size `R` and the offsets the body uses as VARIABLES (`cnt`, `a k`, `o1 k`, …; they are assigned by
+  unification when the body is compared, by `rfl`, with the projection-form body) together with equations
+  (`cnt = r`, `∀ k, a k = 2 * k * R`, `R = 32 * r`, …) discharged by `idx` (`rfl | omega | grind`).  So `(0..2*r).step_by(2)`
+  with `i * 16` and `0..r` with `i * 32`, `32 * r` and `r * 32`, `(0..N).step_by(2)` and `0..N / 2` are the same to the proofs,
+  while a wrong count, offset, split point or chunk size leaves a false equation (`grind` fails).  Buffers made by
+  `vec![0; n]` or by splitting one (`split_at_mut`) only have to have the right lengths (`buf_len`).
+  Still positional: the order of the variables in a loop state (declaration order in the source).
 -/
 import KestrelModel.GeneratedScrypt
 import KestrelProofs.Scrypt
 import KestrelProofs.RsUnfold
+-- the loop normal-form lemmas are given to `simp only` together: a source uses one loop form or the other
+set_option linter.unusedSimpArgs false
 namespace Kestrel
 namespace ScryptSrc
 open Scrypt
@@ -68,12 +79,34 @@ theorem flat_set (L : List Blk) (k : Nat) (w : Blk) (h : k < L.length) :
 
 /-! ### the loop combinators -/
 
-theorem forRange_zero (n : Nat) (f : Nat → σ → σ) (s : σ) : Rs.forRange 0 n f s = Rs.loopFrom 1 f n 0 s := rfl
+/-- Side goals about index arithmetic (an iteration count, a slice offset, a split point written one way or another:
+    `i * 16` with `i = 0 + 2 * k`, or `k * 32`; `32 * r` or `r * 32`; `(N - 0 + 2 - 1) / 2` or `N / 2 - 0`): closed by evaluation,
+    linear arithmetic, or `grind`'s commutative-semiring normaliser (products of variables such as `2 * i * (32 * r)`). -/
+macro "idx" : tactic => `(tactic| (intros; first | rfl | omega | grind))
 
-/-- `(0..2n).step_by(2)` runs `n` times -/
-theorem forStep_two (n : Nat) (f : Nat → σ → σ) (s : σ) : Rs.forStep 0 (2 * n) 2 f s = Rs.loopFrom 2 f n 0 s := by
-  have e : (2 * n - 0 + 2 - 1) / 2 = n := by omega
-  simp only [Rs.forStep, e]
+/-- a counted loop with any start and stride is a unit-stride loop from 0 over the re-indexed body -/
+theorem loopFrom_reindex (step : Nat) (f : Nat → σ → σ) (i0 : Nat) : ∀ (n j : Nat) (s : σ),
+    Rs.loopFrom step f n (i0 + step * j) s = Rs.loopFrom 1 (fun k => f (i0 + step * k)) n j s
+  | 0, _, _ => rfl
+  | n+1, j, s => by
+    rw [Rs.loopFrom_succ, Rs.loopFrom_succ, ← loopFrom_reindex step f i0 n (j + 1), Nat.mul_succ, Nat.add_assoc]
+
+/-- normal form of `for i in lo..hi`: `hi - lo` passes, pass `k` runs the body at `lo + k` -/
+theorem forRange_norm (lo hi : Nat) (f : Nat → σ → σ) (s : σ) :
+    Rs.forRange lo hi f s = Rs.loopFrom 1 (fun k => f (lo + k)) (hi - lo) 0 s := by
+  have h := loopFrom_reindex 1 f lo (hi - lo) 0 s
+  simp only [Nat.mul_zero, Nat.add_zero, Nat.one_mul] at h
+  exact h
+
+/-- normal form of `for i in (lo..hi).step_by(st)`: `⌈(hi - lo) / st⌉` passes, pass `k` runs the body at `lo + st * k`.
+    (Every loop lemma below is stated for this normal form, with the count and the offsets the body uses as variables tied
+    to their values by equations that `idx` proves: a stride-2 loop scaling its index and a unit-stride loop over pairs are
+    the same loop to the proofs.) -/
+theorem forStep_norm (lo hi st : Nat) (f : Nat → σ → σ) (s : σ) :
+    Rs.forStep lo hi st f s = Rs.loopFrom 1 (fun k => f (lo + st * k)) ((hi - lo + st - 1) / st) 0 s := by
+  have h := loopFrom_reindex st f lo ((hi - lo + st - 1) / st) 0 s
+  rw [Nat.mul_zero, Nat.add_zero] at h
+  exact h
 
 /-! ### salsa_xor -/
 
@@ -85,14 +118,15 @@ def tup (s : Blk) : T16 :=
   (s.x0, s.x1, s.x2, s.x3, s.x4, s.x5, s.x6, s.x7, s.x8, s.x9, s.x10, s.x11, s.x12, s.x13, s.x14, s.x15)
 
 /-- four passes of a body that acts as `salsaDouble` -/
-theorem salsa_loop (f : Nat → T16 → T16) (h : ∀ i s, f i (tup s) = tup (salsaDouble s))
+theorem salsa_loop (f : Nat → T16 → T16) (cnt : Nat) (hc : cnt = 4) (h : ∀ i s, f i (tup s) = tup (salsaDouble s))
     (a0 a1 a2 a3 a4 a5 a6 a7 a8 a9 a10 a11 a12 a13 a14 a15 : UInt32) :
-    Rs.forStep 0 8 2 f (a0, a1, a2, a3, a4, a5, a6, a7, a8, a9, a10, a11, a12, a13, a14, a15) =
+    Rs.loopFrom 1 f cnt 0 (a0, a1, a2, a3, a4, a5, a6, a7, a8, a9, a10, a11, a12, a13, a14, a15) =
       tup (iter salsaDouble 4 ⟨a0, a1, a2, a3, a4, a5, a6, a7, a8, a9, a10, a11, a12, a13, a14, a15⟩) := by
+  subst hc
   have e : (a0, a1, a2, a3, a4, a5, a6, a7, a8, a9, a10, a11, a12, a13, a14, a15) =
     tup ⟨a0, a1, a2, a3, a4, a5, a6, a7, a8, a9, a10, a11, a12, a13, a14, a15⟩ := rfl
   rw [e]
-  simp only [Rs.forStep, show (8 - 0 + 2 - 1) / 2 = 4 from rfl, Rs.loopFrom_succ, Rs.loopFrom_zero, h, iter]
+  simp only [Rs.loopFrom_succ, Rs.loopFrom_zero, h, iter]
 
 /-- **salsa_xor**: with `tmp` a block, `inn` starting with a block and `out` starting with 16 words, the generated
     `salsa_xor` puts Salsa20/8 of `tmp xor inn` into `tmp` and into the first 16 words of `out`.
@@ -103,7 +137,8 @@ theorem salsa_xor_eq (T B O : Blk) (ir or : List UInt32) :
   unfold salsa_xor
   rs_unfold
   extract_lets w0 w1 w2 w3 w4 w5 w6 w7 w8 w9 w10 w11 w12 w13 w14 w15 x0 x1 x2 x3 x4 x5 x6 x7 x8 x9 x10 x11 x12 x13 x14 x15
-  rw [salsa_loop _ (fun _ _ => rfl)]
+  simp only [forStep_norm, forRange_norm]
+  rw [salsa_loop _ _ (by idx) (fun _ _ => rfl)]
   have hs : salsa208 (T.xor B) =
       (iter salsaDouble 4 ⟨x0, x1, x2, x3, x4, x5, x6, x7, x8, x9, x10, x11, x12, x13, x14, x15⟩).add
         ⟨w0, w1, w2, w3, w4, w5, w6, w7, w8, w9, w10, w11, w12, w13, w14, w15⟩ := rfl
@@ -239,36 +274,37 @@ theorem take_succ_set {α} (L : List α) (k : Nat) (a : α) (h : k < L.length) :
   rw [List.take_succ_eq_append_getElem (by rw [List.length_set]; exact h), List.getElem_set_self,
     List.take_set_of_le (Nat.le_refl _)]
 
-/-- the body of the `block_mix` loop, in projection form -/
-def mixBody (inn : List UInt32) (r i : Nat) (s : List UInt32 × List UInt32) : List UInt32 × List UInt32 :=
-  let p := salsa_xor s.1 (inn.drop (i * 16)) (s.2.drop (i * 8))
-  let out1 := s.2.take (i * 8) ++ p.2
-  let q := salsa_xor p.1 (inn.drop (i * 16 + 16)) (out1.drop (i * 8 + r * 16))
-  (q.1, out1.take (i * 8 + r * 16) ++ q.2)
+/-- the body of the `block_mix` loop, in projection form; `a1`, `a2` are the offsets read in `inn`, `o1`, `o2` the offsets
+    written in `out` -/
+def mixBody (inn : List UInt32) (a1 o1 a2 o2 : Nat) (s : List UInt32 × List UInt32) : List UInt32 × List UInt32 :=
+  let p := salsa_xor s.1 (inn.drop a1) (s.2.drop o1)
+  let out1 := s.2.take o1 ++ p.2
+  let q := salsa_xor p.1 (inn.drop a2) (out1.drop o2)
+  (q.1, out1.take o2 ++ q.2)
 
 /-- one pass of the loop: blocks `2k`, `2k+1` of the input go through Salsa20/8 into blocks `k` and `k+r` of `out` -/
 theorem mixBody_eq (r k : Nat) (T b0 b1 : Blk) (Brest B O : List Blk) (hk : k < r) (hO : O.length = 2 * r)
-    (hB : B.drop (2 * k) = b0 :: b1 :: Brest) :
-    mixBody (flat B) r (2 * k) (words T, flat O) =
+    (hB : B.drop (2 * k) = b0 :: b1 :: Brest) (a1 o1 a2 o2 : Nat)
+    (ha1 : a1 = 16 * (2 * k)) (ho1 : o1 = 16 * k) (ha2 : a2 = 16 * (2 * k + 1)) (ho2 : o2 = 16 * (k + r)) :
+    mixBody (flat B) a1 o1 a2 o2 (words T, flat O) =
       (words (salsa208 ((salsa208 (T.xor b0)).xor b1)),
        flat ((O.set k (salsa208 (T.xor b0))).set (k + r) (salsa208 ((salsa208 (T.xor b0)).xor b1)))) := by
-  have e1 : (flat B).drop (2 * k * 16) = words b0 ++ (words b1 ++ flat Brest) := by
-    rw [show 2 * k * 16 = 16 * (2 * k) by omega, flat_drop, hB]; rfl
-  have e2 : (flat B).drop (2 * k * 16 + 16) = words b1 ++ flat Brest := by
-    rw [show 2 * k * 16 + 16 = 16 * (2 * k + 1) by omega, flat_drop, ← List.drop_drop, hB]; rfl
-  have e3 : (flat O).drop (2 * k * 8) = words O[k] ++ flat (O.drop (k + 1)) := by
-    rw [show 2 * k * 8 = 16 * k by omega, flat_drop, List.drop_eq_getElem_cons (by omega)]; rfl
-  have e4 : (flat O).take (2 * k * 8) = flat (O.take k) := by
-    rw [show 2 * k * 8 = 16 * k by omega, flat_take]
+  subst ha1 ho1 ha2 ho2
+  have e1 : (flat B).drop (16 * (2 * k)) = words b0 ++ (words b1 ++ flat Brest) := by
+    rw [flat_drop, hB]; rfl
+  have e2 : (flat B).drop (16 * (2 * k + 1)) = words b1 ++ flat Brest := by
+    rw [flat_drop, ← List.drop_drop, hB]; rfl
+  have e3 : (flat O).drop (16 * k) = words O[k] ++ flat (O.drop (k + 1)) := by
+    rw [flat_drop, List.drop_eq_getElem_cons (by omega)]; rfl
+  have e4 : (flat O).take (16 * k) = flat (O.take k) := flat_take _ _
   simp only [mixBody, e1, e3, salsa_xor_eq, e4, e2]
   generalize salsa208 (T.xor b0) = t0
   rw [flat_set O k t0 (by omega)]
   have hO1 : (O.set k t0).length = 2 * r := by rw [List.length_set]; exact hO
-  have e5 : (flat (O.set k t0)).drop (2 * k * 8 + r * 16) =
+  have e5 : (flat (O.set k t0)).drop (16 * (k + r)) =
       words (O.set k t0)[k + r] ++ flat ((O.set k t0).drop (k + r + 1)) := by
-    rw [show 2 * k * 8 + r * 16 = 16 * (k + r) by omega, flat_drop, List.drop_eq_getElem_cons (by omega)]; rfl
-  have e6 : (flat (O.set k t0)).take (2 * k * 8 + r * 16) = flat ((O.set k t0).take (k + r)) := by
-    rw [show 2 * k * 8 + r * 16 = 16 * (k + r) by omega, flat_take]
+    rw [flat_drop, List.drop_eq_getElem_cons (by omega)]; rfl
+  have e6 : (flat (O.set k t0)).take (16 * (k + r)) = flat ((O.set k t0).take (k + r)) := flat_take _ _
   simp only [e5, e6, salsa_xor_eq, flat_set (O.set k t0) (k + r) _ (by omega)]
 
 theorem mixPairs_cons2 (T b0 b1 : Blk) (rest : List Blk) :
@@ -277,10 +313,12 @@ theorem mixPairs_cons2 (T b0 b1 : Blk) (rest : List Blk) :
        salsa208 ((salsa208 (T.xor b0)).xor b1) :: (Impl.mixPairs (salsa208 ((salsa208 (T.xor b0)).xor b1)) rest).2) := rfl
 
 theorem block_mix_loop (r : Nat) (B : List Blk) (hB : B.length = 2 * r)
-    (f : Nat → List UInt32 × List UInt32 → List UInt32 × List UInt32)
-    (hf : ∀ i s, f i s = mixBody (flat B) r i s) :
+    (f : Nat → List UInt32 × List UInt32 → List UInt32 × List UInt32) (a1 o1 a2 o2 : Nat → Nat)
+    (hf : ∀ k s, f k s = mixBody (flat B) (a1 k) (o1 k) (a2 k) (o2 k) s)
+    (ha1 : ∀ k, a1 k = 16 * (2 * k)) (ho1 : ∀ k, o1 k = 16 * k) (ha2 : ∀ k, a2 k = 16 * (2 * k + 1))
+    (ho2 : ∀ k, o2 k = 16 * (k + r)) :
     ∀ (n k : Nat) (T : Blk) (O : List Blk), k + n = r → O.length = 2 * r →
-      ∃ T' : Blk, Rs.loopFrom 2 f n (2 * k) (words T, flat O) =
+      ∃ T' : Blk, Rs.loopFrom 1 f n k (words T, flat O) =
         (words T', flat (O.take k ++ (Impl.mixPairs T (B.drop (2 * k))).1 ++ ((O.drop r).take k ++
           (Impl.mixPairs T (B.drop (2 * k))).2)))
   | 0, k, T, O, hk, hO => by
@@ -302,10 +340,10 @@ theorem block_mix_loop (r : Nat) (B : List Blk) (hB : B.length = 2 * r)
       have := congrArg (List.drop 2) hd
       rw [List.drop_drop] at this
       rw [show 2 * (k + 1) = 2 * k + 2 by omega, this]; rfl
-    rw [Rs.loopFrom_succ, hf, mixBody_eq r k T b0 b1 rest B O hkr hO hd, show 2 * k + 2 = 2 * (k + 1) by omega]
+    rw [Rs.loopFrom_succ, hf, mixBody_eq r k T b0 b1 rest B O hkr hO hd _ _ _ _ (ha1 k) (ho1 k) (ha2 k) (ho2 k)]
     generalize ht0 : salsa208 (T.xor b0) = t0
     generalize ht1 : salsa208 (t0.xor b1) = t1
-    obtain ⟨T', hT'⟩ := block_mix_loop r B hB f hf n (k + 1) t1 ((O.set k t0).set (k + r) t1) (by omega)
+    obtain ⟨T', hT'⟩ := block_mix_loop r B hB f a1 o1 a2 o2 hf ha1 ho1 ha2 ho2 n (k + 1) t1 ((O.set k t0).set (k + r) t1) (by omega)
       (by rw [List.length_set, List.length_set]; exact hO)
     refine ⟨T', ?_⟩
     rw [hT', hd, mixPairs_cons2, ht0, ht1, hrest]
@@ -324,27 +362,32 @@ theorem blockMix_pairs (B : List Blk) : Impl.blockMix B =
 theorem block_mix_eq (T : Blk) (B O : List Blk) (r : Nat) (hr : 1 ≤ r) (hB : B.length = 2 * r) (hO : O.length = 2 * r) :
     ∃ T' : Blk, block_mix (words T) (flat B) (flat O) r = (words T', flat (Impl.blockMix B)) := by
   have hs := snoc_of_length B (2 * r - 1) Blk.zero (by omega)
-  have hc : block_copy (words T) ((flat B).drop ((2 * r - 1) * 16)) 16 = words (B.getLast?.getD Blk.zero) := by
-    rw [show (2 * r - 1) * 16 = 16 * (2 * r - 1) by omega, flat_drop]
+  have hc : ∀ a n : Nat, a = 16 * (2 * r - 1) → n = 16 →
+      block_copy (words T) ((flat B).drop a) n = words (B.getLast?.getD Blk.zero) := by
+    intro a n ha hn
+    subst ha hn
+    rw [flat_drop]
     have hd : B.drop (2 * r - 1) = [B.getLast?.getD Blk.zero] := by
       conv => lhs; rw [hs]
       exact List.drop_left' (by rw [List.length_take]; omega)
     rw [hd, block_copy_eq _ _ _ (by rw [words_length]; omega) (by simp [flat, words_length])]
     simp [flat, words]
-  have key : ∀ F : Nat → List UInt32 × List UInt32 → List UInt32 × List UInt32,
-      (∀ i s, F i s = mixBody (flat B) r i s) →
-      ∃ T' : Blk, (match Rs.loopFrom 2 F r 0 (words (B.getLast?.getD Blk.zero), flat O) with
+  have key : ∀ (F : Nat → List UInt32 × List UInt32 → List UInt32 × List UInt32) (cnt a n : Nat) (a1 o1 a2 o2 : Nat → Nat),
+      (∀ k s, F k s = mixBody (flat B) (a1 k) (o1 k) (a2 k) (o2 k) s) →
+      cnt = r → a = 16 * (2 * r - 1) → n = 16 →
+      (∀ k, a1 k = 16 * (2 * k)) → (∀ k, o1 k = 16 * k) → (∀ k, a2 k = 16 * (2 * k + 1)) → (∀ k, o2 k = 16 * (k + r)) →
+      ∃ T' : Blk, (match Rs.loopFrom 1 F cnt 0 (block_copy (words T) ((flat B).drop a) n, flat O) with
         | (tmp, out) => (tmp, out)) = (words T', flat (Impl.blockMix B)) := by
-    intro F hF
-    obtain ⟨T', hT'⟩ := block_mix_loop r B hB F hF r 0 (B.getLast?.getD Blk.zero) O (by omega) hO
+    intro F cnt a n a1 o1 a2 o2 hF hcnt ha hn ha1 ho1 ha2 ho2
+    subst hcnt
+    obtain ⟨T', hT'⟩ := block_mix_loop cnt B hB F a1 o1 a2 o2 hF ha1 ho1 ha2 ho2 cnt 0 (B.getLast?.getD Blk.zero) O (by omega) hO
     refine ⟨T', ?_⟩
-    rw [Nat.mul_zero] at hT'
-    rw [hT', blockMix_pairs]
-    simp only [List.take_zero, List.drop_zero, List.nil_append]
+    rw [hc a n ha hn, hT', blockMix_pairs]
+    simp only [Nat.mul_zero, List.take_zero, List.drop_zero, List.nil_append]
   unfold block_mix
   rs_unfold
-  simp only [hc, forStep_two]
-  exact key _ (fun _ _ => rfl)
+  simp only [forStep_norm, forRange_norm]
+  exact key _ _ _ _ _ _ _ _ (fun _ _ => rfl) (by idx) (by idx) (by idx) (by idx) (by idx) (by idx) (by idx)
 
 /-! ### bytes ↔ words -/
 
@@ -408,17 +451,17 @@ theorem flatMap_u32le_length : ∀ (l : List UInt32), (l.flatMap u32le).length =
 def unpackBody (b : List UInt8) (i : Nat) (s : List UInt32 × Nat) : List UInt32 × Nat :=
   (Rs.set s.1 i (Rs.u32FromLeBytes ((b.drop s.2).take (s.2 + 4 - s.2))), s.2 + 4)
 
-theorem unpack_loop (b : List UInt8) (F : Nat → List UInt32 × Nat → List UInt32 × Nat)
-    (hF : ∀ i s, F i s = unpackBody b i s) :
+theorem unpack_loop (b : List UInt8) (F : Nat → List UInt32 × Nat → List UInt32 × Nat) (ix : Nat → Nat)
+    (hF : ∀ i s, F i s = unpackBody b (ix i) s) (hix : ∀ i, ix i = i) :
     ∀ (n i : Nat) (x : List UInt32), i + n ≤ x.length → 4 * (i + n) ≤ b.length →
       Rs.loopFrom 1 F n i (x, 4 * i) =
         (x.take i ++ words32le ((b.drop (4 * i)).take (4 * n)) ++ x.drop (i + n), 4 * (i + n))
   | 0, i, x, _, _ => by simp [words32le]
   | n+1, i, x, hx, hb => by
     obtain ⟨c0, c1, c2, c3, hc⟩ := drop_four b (4 * i) (by omega)
-    rw [Rs.loopFrom_succ, hF, unpackBody]
+    rw [Rs.loopFrom_succ, hF, hix, unpackBody]
     simp only [show 4 * i + 4 - 4 * i = 4 by omega, hc, List.take_succ_cons, List.take_zero]
-    rw [show 4 * i + 4 = 4 * (i + 1) by omega, unpack_loop b F hF n (i + 1) _ (by rw [Rs.set, List.length_set]; omega) (by omega)]
+    rw [show 4 * i + 4 = 4 * (i + 1) by omega, unpack_loop b F ix hF hix n (i + 1) _ (by rw [Rs.set, List.length_set]; omega) (by omega)]
     rw [Rs.set, take_succ_set _ _ _ (by omega), List.drop_set_of_lt (by omega),
       show 4 * (n + 1) = 4 * n + 1 + 1 + 1 + 1 by omega]
     simp only [List.take_succ_cons, words32le, show i + 1 + n = i + (n + 1) by omega,
@@ -554,19 +597,21 @@ abbrev St4 := List UInt32 × List UInt32 × List UInt32 × List UInt32
 
 /-- body of the loop `for i in (0..N).step_by(2) { block_copy(&mut v[i*R..], x, R); block_mix(&mut tmp, x, y, r);
     block_copy(&mut v[(i+1)*R..], y, R); block_mix(&mut tmp, y, x, r) }`, projection form, state (v, x, y, tmp) -/
-def fillBody (r R i : Nat) (s : St4) : St4 :=
-  let v1 := s.1.take (i * R) ++ block_copy (s.1.drop (i * R)) s.2.1 R
+def fillBody (r R a b : Nat) (s : St4) : St4 :=
+  let v1 := s.1.take a ++ block_copy (s.1.drop a) s.2.1 R
   let p := block_mix s.2.2.2 s.2.1 s.2.2.1 r
-  let v2 := v1.take ((i + 1) * R) ++ block_copy (v1.drop ((i + 1) * R)) p.2 R
+  let v2 := v1.take b ++ block_copy (v1.drop b) p.2 R
   let q := block_mix p.1 p.2 s.2.1 r
   (v2, q.2, p.2, q.1)
 
 theorem fillBody_eq (r R k : Nat) (hr : 1 ≤ r) (hR : R = 32 * r) (v : List UInt32) (X Y : List Blk) (T : Blk)
-    (hX : X.length = 2 * r) (hY : Y.length = 2 * r) (hv : (2 * k + 2) * R ≤ v.length) :
-    ∃ v' T', fillBody r R (2 * k) (v, flat X, flat Y, words T) =
+    (hX : X.length = 2 * r) (hY : Y.length = 2 * r) (hv : (2 * k + 2) * R ≤ v.length)
+    (a b : Nat) (ha : a = 2 * k * R) (hb : b = (2 * k + 1) * R) :
+    ∃ v' T', fillBody r R a b (v, flat X, flat Y, words T) =
         (v', flat (Impl.blockMix (Impl.blockMix X)), flat (Impl.blockMix X), words T') ∧
       v'.length = v.length ∧
       v'.take ((2 * k + 2) * R) = v.take (2 * k * R) ++ flat X ++ flat (Impl.blockMix X) := by
+  subst ha hb
   obtain ⟨T1, h1⟩ := block_mix_eq T X Y r hr hX hY
   have hY1 : (Impl.blockMix X).length = 2 * r := by rw [Impl.blockMix_length X (by omega)]; exact hX
   obtain ⟨T2, h2⟩ := block_mix_eq T1 (Impl.blockMix X) X r hr hY1 hX
@@ -586,11 +631,11 @@ theorem fillBody_eq (r R k : Nat) (hr : 1 ≤ r) (hR : R = 32 * r) (v : List UIn
   · rw [q1, p1]
   · rw [q2, p2]
 
-theorem fill_loop (r R : Nat) (hr : 1 ≤ r) (hR : R = 32 * r) (F : Nat → St4 → St4)
-    (hF : ∀ i s, F i s = fillBody r R i s) :
+theorem fill_loop (r R : Nat) (hr : 1 ≤ r) (hR : R = 32 * r) (F : Nat → St4 → St4) (a b : Nat → Nat)
+    (hF : ∀ k s, F k s = fillBody r R (a k) (b k) s) (ha : ∀ k, a k = 2 * k * R) (hb : ∀ k, b k = (2 * k + 1) * R) :
     ∀ (n k : Nat) (v : List UInt32) (X Y : List Blk) (T : Blk) (V : Array (List Blk)),
       X.length = 2 * r → Y.length = 2 * r → (2 * k + 2 * n) * R ≤ v.length → v.take (2 * k * R) = flatL V.toList →
-      ∃ v' Y' T', Rs.loopFrom 2 F n (2 * k) (v, flat X, flat Y, words T) =
+      ∃ v' Y' T', Rs.loopFrom 1 F n k (v, flat X, flat Y, words T) =
           (v', flat (Impl.fillV2 n X V).2, flat Y', words T') ∧
         v'.length = v.length ∧ v'.take ((2 * k + 2 * n) * R) = flatL (Impl.fillV2 n X V).1.toList ∧
         Y'.length = 2 * r
@@ -598,17 +643,17 @@ theorem fill_loop (r R : Nat) (hr : 1 ≤ r) (hR : R = 32 * r) (F : Nat → St4 
   | n+1, k, v, X, Y, T, V, hX, hY, hv, hV => by
     have hk : 2 * k + 2 * (n + 1) = 2 * (k + 1) + 2 * n := by omega
     obtain ⟨v1, T1, e, hl, ht⟩ := fillBody_eq r R k hr hR v X Y T hX hY
-      (Nat.le_trans (Nat.mul_le_mul_right R (by omega)) hv)
+      (Nat.le_trans (Nat.mul_le_mul_right R (by omega)) hv) _ _ (ha k) (hb k)
     have hY1 : (Impl.blockMix X).length = 2 * r := by rw [Impl.blockMix_length X (by omega)]; exact hX
     have hX2 : (Impl.blockMix (Impl.blockMix X)).length = 2 * r := by
       rw [Impl.blockMix_length _ (by omega)]; exact hY1
-    obtain ⟨v', Y', T', e', hl', ht', hY'⟩ := fill_loop r R hr hR F hF n (k + 1) v1 (Impl.blockMix (Impl.blockMix X))
+    obtain ⟨v', Y', T', e', hl', ht', hY'⟩ := fill_loop r R hr hR F a b hF ha hb n (k + 1) v1 (Impl.blockMix (Impl.blockMix X))
       (Impl.blockMix X) T1 ((V.push X).push (Impl.blockMix X)) hX2 hY1 (by rw [hl, ← hk]; exact hv)
       (by
         rw [show 2 * (k + 1) = 2 * k + 2 by omega, ht, hV]
         simp only [Array.toList_push, flatL_append, flatL, List.append_nil, List.append_assoc])
     refine ⟨v', Y', T', ?_, by rw [hl', hl], by rw [hk]; exact ht', hY'⟩
-    rw [Rs.loopFrom_succ, hF, e, show 2 * k + 2 = 2 * (k + 1) by omega, e']
+    rw [Rs.loopFrom_succ, hF, e, e']
     rfl
 
 theorem fillV2_props (r : Nat) : ∀ (n : Nat) (X : List Blk) (V : Array (List Blk)), X.length = 2 * r →
@@ -688,12 +733,12 @@ theorem mix_loop (r R N kk : Nat) (hr : 1 ≤ r) (hR : R = 32 * r) (hN : N = 2 ^
     (hVs : V.size = N) (hVl : AllLen V.toList (2 * r)) (F : Nat → St3 → St3)
     (hF : ∀ i s, F i s = mixVBody r R N (flatL V.toList) s) :
     ∀ (n i : Nat) (X Y : List Blk) (T : Blk), X.length = 2 * r → Y.length = 2 * r →
-      ∃ Y' T', Rs.loopFrom 2 F n i (flat X, flat Y, words T) = (flat (Impl.mixV2 V N n X), flat Y', words T') ∧
+      ∃ Y' T', Rs.loopFrom 1 F n i (flat X, flat Y, words T) = (flat (Impl.mixV2 V N n X), flat Y', words T') ∧
         (Impl.mixV2 V N n X).length = 2 * r ∧ Y'.length = 2 * r
   | 0, _, X, Y, T, hX, hY => ⟨Y, T, rfl, hX, hY⟩
   | n+1, i, X, Y, T, hX, hY => by
     obtain ⟨Y1, T1, e, hl, hY1⟩ := mixVBody_eq r R N kk hr hR hN V hVs hVl X Y T hX hY
-    obtain ⟨Y', T', e', hl', hY'⟩ := mix_loop r R N kk hr hR hN V hVs hVl F hF n (i + 2) _ Y1 T1 hl hY1
+    obtain ⟨Y', T', e', hl', hY'⟩ := mix_loop r R N kk hr hR hN V hVs hVl F hF n (i + 1) _ Y1 T1 hl hY1
     exact ⟨Y', T', by rw [Rs.loopFrom_succ, hF, e, e', mixV2_succ V N n X], by rw [mixV2_succ V N n X]; exact hl', hY'⟩
 
 /-! ### smix -/
@@ -707,42 +752,47 @@ theorem exists_flat : ∀ (m : Nat) (l : List UInt32), l.length = 16 * m → ∃
     rw [flat, hf, ofWords_words _ (by rw [List.length_take]; omega), List.take_append_drop]
 
 theorem unpack_all (b : List UInt8) (F : Nat → List UInt32 × Nat → List UInt32 × Nat) (s : List UInt32 × Nat)
-    (x : List UInt32) (r : Nat) (h : Rs.forRange 0 (32 * r) F (x, 0) = s) (hF : ∀ i s, F i s = unpackBody b i s)
+    (x : List UInt32) (r cnt : Nat) (ix : Nat → Nat) (h : Rs.loopFrom 1 F cnt 0 (x, 0) = s)
+    (hF : ∀ i s, F i s = unpackBody b (ix i) s) (hc : cnt = 32 * r) (hix : ∀ i, ix i = i)
     (hx : x.length = 32 * r) (hb : 128 * r ≤ b.length) :
     s = (flat (blocksOfBytes (2 * r) (b.take (128 * r))), 4 * (32 * r)) := by
-  have e := unpack_loop b F hF (32 * r) 0 x (by omega) (by omega)
-  rw [forRange_zero, show (0 : Nat) = 4 * 0 from rfl, e] at h
+  subst hc
+  have e := unpack_loop b F ix hF hix (32 * r) 0 x (by omega) (by omega)
+  rw [show (0 : Nat) = 4 * 0 from rfl, e] at h
   rw [← h, flat_blocksOfBytes _ _ (by rw [List.length_take]; omega)]
   simp only [Nat.mul_zero, List.take_zero, List.drop_zero, List.nil_append, Nat.zero_add,
     List.drop_of_length_le (Nat.le_of_eq hx), List.append_nil, List.take_take]
   rw [show min (64 * (2 * r)) (128 * r) = 4 * (32 * r) by omega]
 
 theorem fill_all (r R N : Nat) (hr : 1 ≤ r) (hR : R = 32 * r) (F : Nat → St4 → St4) (s : St4) (m : Nat) (hm : N = 2 * m)
-    (v : List UInt32) (X Y : List Blk) (T : Blk)
-    (h : Rs.forStep 0 N 2 F (v, flat X, flat Y, words T) = s) (hF : ∀ i s, F i s = fillBody r R i s)
+    (v : List UInt32) (X Y : List Blk) (T : Blk) (cnt : Nat) (a b : Nat → Nat)
+    (h : Rs.loopFrom 1 F cnt 0 (v, flat X, flat Y, words T) = s) (hF : ∀ k s, F k s = fillBody r R (a k) (b k) s)
+    (hc : cnt = m) (ha : ∀ k, a k = 2 * k * R) (hb : ∀ k, b k = (2 * k + 1) * R)
     (hX : X.length = 2 * r) (hY : Y.length = 2 * r) (hv : v.length = N * R) :
     ∃ Y' T', s = (flatL (Impl.fillV2 m X #[]).1.toList, flat (Impl.fillV2 m X #[]).2, flat Y', words T') ∧
       Y'.length = 2 * r := by
-  subst hm
-  obtain ⟨v', Y', T', e, hl, ht, hY'⟩ := fill_loop r R hr hR F hF m 0 v X Y T #[] hX hY
+  subst hm hc
+  obtain ⟨v', Y', T', e, hl, ht, hY'⟩ := fill_loop r R hr hR F a b hF ha hb cnt 0 v X Y T #[] hX hY
     (by rw [hv]; exact Nat.le_of_eq (by rw [Nat.mul_zero, Nat.zero_add])) (by simp [flatL])
-  rw [forStep_two, show (0 : Nat) = 2 * 0 from rfl, e] at h
+  rw [e] at h
   rw [Nat.mul_zero, Nat.zero_add, ← hv, ← hl, List.take_length] at ht
   exact ⟨Y', T', by rw [← h, ht], hY'⟩
 
-theorem mix_all (r R N kk : Nat) (hr : 1 ≤ r) (hR : R = 32 * r) (hN : N = 2 ^ kk) (m : Nat) (hm : N = 2 * m)
+theorem mix_all (r R N kk : Nat) (hr : 1 ≤ r) (hR : R = 32 * r) (hN : N = 2 ^ kk) (m : Nat) (_hm : N = 2 * m)
     (V : Array (List Blk)) (hVs : V.size = N) (hVl : AllLen V.toList (2 * r)) (F : Nat → St3 → St3) (s : St3)
-    (X Y : List Blk) (T : Blk) (h : Rs.forStep 0 N 2 F (flat X, flat Y, words T) = s)
-    (hF : ∀ i s, F i s = mixVBody r R N (flatL V.toList) s) (hX : X.length = 2 * r) (hY : Y.length = 2 * r) :
+    (X Y : List Blk) (T : Blk) (cnt : Nat) (h : Rs.loopFrom 1 F cnt 0 (flat X, flat Y, words T) = s)
+    (hF : ∀ i s, F i s = mixVBody r R N (flatL V.toList) s) (hc : cnt = m) (hX : X.length = 2 * r) (hY : Y.length = 2 * r) :
     ∃ Y' T', s = (flat (Impl.mixV2 V N m X), flat Y', words T') ∧
       (Impl.mixV2 V N m X).length = 2 * r ∧ Y'.length = 2 * r := by
   obtain ⟨Y', T', e, hl, hY'⟩ := mix_loop r R N kk hr hR hN V hVs hVl F hF m 0 X Y T hX hY
-  rw [hm, forStep_two, e] at h
+  rw [hc, e] at h
   exact ⟨Y', T', h.symm, hl, hY'⟩
 
-theorem pack_all (F : UInt32 → List UInt8 × Nat → List UInt8 × Nat) (s : List UInt8 × Nat) (l : List UInt32)
-    (b : List UInt8) (h : Rs.forIn l F (b, 0) = s) (hF : ∀ w s, F w s = packBody w s) (hb : 4 * l.length ≤ b.length) :
+theorem pack_all (F : UInt32 → List UInt8 × Nat → List UInt8 × Nat) (s : List UInt8 × Nat) (l : List UInt32) (R : Nat)
+    (b : List UInt8) (h : Rs.forIn (l.take R) F (b, 0) = s) (hF : ∀ w s, F w s = packBody w s) (hR : l.length ≤ R)
+    (hb : 4 * l.length ≤ b.length) :
     s.1 = l.flatMap u32le ++ b.drop (4 * l.length) := by
+  rw [List.take_of_length_le hR] at h
   rw [← h, pack_loop F hF l 0 b (by omega)]
   simp only [List.take_zero, List.nil_append, Nat.zero_add]
 
@@ -768,23 +818,24 @@ theorem smix_eq (b : List UInt8) (v x y : List UInt32) (r N kk : Nat) (hN : N = 
   have hz : List.replicate 16 (0 : UInt32) = words Blk.zero := rfl
   unfold smix
   rs_unfold
-  simp only [hz]
+  simp only [hz, forStep_norm, forRange_norm]
   -- first loop (bytes of `b` to words of `x`): an index loop with a running byte offset, or `iter_mut().zip(chunks_exact(4))`
   first
-    | (generalize h1 : Rs.forRange 0 (32 * r) _ (x, 0) = s1
-       have e1 := unpack_all b _ s1 x r h1 (fun _ _ => rfl) hx hb
+    | (generalize h1 : Rs.loopFrom 1 _ _ 0 (x, 0) = s1
+       have e1 := unpack_all b _ s1 x r _ _ h1 (fun _ _ => rfl) (by idx) (by idx) hx hb
        subst e1
        simp only [])
     | simp only [unpack_zip_all b x r _ (fun _ _ => rfl) hx hb]
-  generalize h2 : Rs.forStep 0 N 2 _ (v, flat (blocksOfBytes (2 * r) (b.take (128 * r))), flat Y0, words Blk.zero) = s2
+  generalize h2 : Rs.loopFrom 1 _ _ 0 (v, flat (blocksOfBytes (2 * r) (b.take (128 * r))), flat Y0, words Blk.zero) = s2
   have hX0 : (blocksOfBytes (2 * r) (b.take (128 * r))).length = 2 * r := blocksOfBytes_length _ _
-  obtain ⟨Y1, T1, rfl, hY1⟩ := fill_all r (32 * r) N hr rfl _ s2 (N / 2) hm v _ Y0 Blk.zero h2 (fun _ _ => rfl) hX0 hY0 hv
+  obtain ⟨Y1, T1, rfl, hY1⟩ := fill_all r _ N hr (by idx) _ s2 (N / 2) hm v _ Y0 Blk.zero _ _ _ h2 (fun _ _ => rfl)
+    (by idx) (by idx) (by idx) hX0 hY0 (hv.trans (by idx))
   obtain ⟨hVs, hVl, hX1⟩ := fillV2_props r (N / 2) _ #[] hX0 (AllLen.nil _)
   simp only []
-  generalize h3 : Rs.forStep 0 N 2 _ (flat (Impl.fillV2 (N / 2) (blocksOfBytes (2 * r) (b.take (128 * r))) #[]).2,
+  generalize h3 : Rs.loopFrom 1 _ _ 0 (flat (Impl.fillV2 (N / 2) (blocksOfBytes (2 * r) (b.take (128 * r))) #[]).2,
     flat Y1, words T1) = s3
-  obtain ⟨Y2, T2, rfl, hX2, hY2⟩ := mix_all r (32 * r) N kk hr rfl hN (N / 2) hm _ (by rw [hVs]; simp; omega) hVl _ s3 _ Y1 T1 h3
-    (fun _ _ => rfl) hX1 hY1
+  obtain ⟨Y2, T2, rfl, hX2, hY2⟩ := mix_all r _ N kk hr (by idx) hN (N / 2) hm _ (by rw [hVs]; simp; omega) hVl _ s3 _ Y1 T1 _ h3
+    (fun _ _ => rfl) (by idx) hX1 hY1
   simp only []
   clear h2 h3
   rw [← smix_unfold] at hX2 ⊢
@@ -797,9 +848,8 @@ theorem smix_eq (b : List UInt8) (v x y : List UInt32) (r N kk : Nat) (hN : N = 
   -- last loop (words of `x` back to bytes of `b`): a `for` over `&x[..R]` with a running byte offset, or
   -- `chunks_exact_mut(4).zip(&x[..R])`
   first
-    | (rw [List.take_of_length_le (Nat.le_of_eq hfl)]
-       generalize h4 : Rs.forIn (flat X3) _ (b, 0) = s4
-       have e4 := pack_all _ s4 (flat X3) b h4 (fun _ _ => rfl) (by rw [hfl]; omega)
+    | (generalize h4 : Rs.forIn (List.take _ (flat X3)) _ (b, 0) = s4
+       have e4 := pack_all _ s4 (flat X3) _ b h4 (fun _ _ => rfl) (by rw [hfl]; idx) (by rw [hfl]; omega)
        refine ⟨_, flat X3, flat Y2, ?_, hvl, hfl, by rw [flat_length, hY2]; omega, hX2⟩
        rw [e4, bytesOfBlocks_eq, hfl, show 4 * (32 * r) = 128 * r by omega])
     | (rw [pack_zip_all b (flat X3) r _ (fun _ _ => rfl) hfl hb]
@@ -811,15 +861,15 @@ theorem smix_eq (b : List UInt8) (v x y : List UInt32) (r N kk : Nat) (hN : N = 
 abbrev St5 := List UInt32 × List UInt32 × List UInt32 × List UInt8
 
 /-- body of `for i in 0..p { smix(&mut b[i*128*r..], r, n, &mut v, &mut x, &mut y) }`, projection form, state (x, y, v, b) -/
-def scryptBody (r n i : Nat) (s : St5) : St5 :=
-  let q := smix (s.2.2.2.drop (i * 128 * r)) r n s.2.2.1 s.1 s.2.1
-  (q.2.2.1, q.2.2.2, q.2.1, s.2.2.2.take (i * 128 * r) ++ q.1)
+def scryptBody (r n a : Nat) (s : St5) : St5 :=
+  let q := smix (s.2.2.2.drop a) r n s.2.2.1 s.1 s.2.1
+  (q.2.2.1, q.2.2.2, q.2.1, s.2.2.2.take a ++ q.1)
 
 theorem bytesOfBlocks_length (X : List Blk) : (bytesOfBlocks X).length = 64 * X.length := by
   rw [bytesOfBlocks_eq, flatMap_u32le_length, flat_length]; omega
 
-theorem scrypt_loop (r N kk : Nat) (hN : N = 2 ^ kk) (hk : 1 ≤ kk) (hr : 1 ≤ r) (F : Nat → St5 → St5)
-    (hF : ∀ i s, F i s = scryptBody r N i s) :
+theorem scrypt_loop (r N kk : Nat) (hN : N = 2 ^ kk) (hk : 1 ≤ kk) (hr : 1 ≤ r) (F : Nat → St5 → St5) (a : Nat → Nat)
+    (hF : ∀ i s, F i s = scryptBody r N (a i) s) (ha : ∀ i, a i = i * (128 * r)) :
     ∀ (n i : Nat) (x y v : List UInt32) (done rest : List UInt8),
       done.length = i * (128 * r) → rest.length = n * (128 * r) →
       x.length = 32 * r → y.length = 32 * r → v.length = N * (32 * r) →
@@ -829,45 +879,101 @@ theorem scrypt_loop (r N kk : Nat) (hN : N = 2 ^ kk) (hk : 1 ≤ kk) (hr : 1 ≤
     exact ⟨x, y, v, by rw [this]; rfl⟩
   | n+1, i, x, y, v, done, rest, hdone, hrest, hx, hy, hv => by
     have hrest' : rest.length = n * (128 * r) + 128 * r := by rw [hrest, Nat.add_mul, Nat.one_mul]
-    have ei : i * 128 * r = i * (128 * r) := Nat.mul_assoc ..
     obtain ⟨v1, x1, y1, e, hv1, hx1, hy1, hl⟩ := smix_eq rest v x y r N kk hN hk hr (by omega) hv hx hy
     generalize hch : bytesOfBlocks (Impl.smix N (blocksOfBytes (2 * r) (rest.take (128 * r)))) = chunk at e
     have hchl : chunk.length = 128 * r := by rw [← hch, bytesOfBlocks_length, hl]; omega
-    obtain ⟨x', y', v', e'⟩ := scrypt_loop r N kk hN hk hr F hF n (i + 1) x1 y1 v1 (done ++ chunk) (rest.drop (128 * r))
+    obtain ⟨x', y', v', e'⟩ := scrypt_loop r N kk hN hk hr F a hF ha n (i + 1) x1 y1 v1 (done ++ chunk) (rest.drop (128 * r))
       (by rw [List.length_append, hdone, hchl, Nat.add_mul, Nat.one_mul])
       (by rw [List.length_drop, hrest']; omega) hx1 hy1 hv1
     refine ⟨x', y', v', ?_⟩
-    rw [Rs.loopFrom_succ, hF, scryptBody]
-    simp only [ei, List.drop_left' hdone, List.take_left' hdone, e]
+    rw [Rs.loopFrom_succ, hF, ha, scryptBody]
+    simp only [List.drop_left' hdone, List.take_left' hdone, e]
     rw [← List.append_assoc, e', Impl.smixAll, hch, List.append_assoc]
 
 theorem scrypt_all (r N kk : Nat) (hN : N = 2 ^ kk) (hk : 1 ≤ kk) (hr : 1 ≤ r) (F : Nat → St5 → St5) (s : St5)
-    (p : Nat) (x y v : List UInt32) (B : List UInt8) (h : Rs.forRange 0 p F (x, y, v, B) = s)
-    (hF : ∀ i s, F i s = scryptBody r N i s) (hB : B.length = p * (128 * r))
+    (p : Nat) (x y v : List UInt32) (B : List UInt8) (cnt : Nat) (a : Nat → Nat) (h : Rs.loopFrom 1 F cnt 0 (x, y, v, B) = s)
+    (hF : ∀ i s, F i s = scryptBody r N (a i) s) (hc : cnt = p) (ha : ∀ i, a i = i * (128 * r)) (hB : B.length = p * (128 * r))
     (hx : x.length = 32 * r) (hy : y.length = 32 * r) (hv : v.length = N * (32 * r)) :
     s.2.2.2 = Impl.smixAll N r p B := by
-  obtain ⟨x', y', v', e⟩ := scrypt_loop r N kk hN hk hr F hF p 0 x y v [] B (by simp) hB hx hy hv
-  rw [forRange_zero] at h
+  subst hc
+  obtain ⟨x', y', v', e⟩ := scrypt_loop r N kk hN hk hr F a hF ha cnt 0 x y v [] B (by simp) hB hx hy hv
   rw [List.nil_append] at e
   rw [← h, e]
   rfl
 
--- comparing the loop body of `scrypt` with `scryptBody` must not unfold `smix`
+/-- body of `for lane in b.chunks_exact_mut(128 * r) { smix(lane, r, n, &mut v, x, y) }`, projection form: the chunk and the
+    state (x, y, v) -/
+def laneBody (r n : Nat) (c : List UInt8) (s : St3) : List UInt8 × St3 :=
+  let q := smix c r n s.2.2 s.1 s.2.1
+  (q.1, (q.2.2.1, q.2.2.2, q.2.1))
+
+theorem lanes_loop (r N kk : Nat) (hN : N = 2 ^ kk) (hk : 1 ≤ kk) (hr : 1 ≤ r) (F : List UInt8 → St3 → List UInt8 × St3)
+    (hF : ∀ c s, F c s = laneBody r N c s) :
+    ∀ (n : Nat) (x y v : List UInt32) (rest : List UInt8), rest.length = n * (128 * r) →
+      x.length = 32 * r → y.length = 32 * r → v.length = N * (32 * r) →
+      (Rs.chunksMutFrom (128 * r) F n rest (x, y, v)).1 = Impl.smixAll N r n rest
+  | 0, _, _, _, rest, hrest, _, _, _ => by
+    have : rest = [] := List.length_eq_zero_iff.mp (by rw [hrest, Nat.zero_mul])
+    rw [this]; rfl
+  | n+1, x, y, v, rest, hrest, hx, hy, hv => by
+    have hrest' : rest.length = n * (128 * r) + 128 * r := by rw [hrest, Nat.add_mul, Nat.one_mul]
+    have hl : (rest.take (128 * r)).length = 128 * r := by rw [List.length_take]; omega
+    obtain ⟨v1, x1, y1, e, hv1, hx1, hy1, _⟩ := smix_eq (rest.take (128 * r)) v x y r N kk hN hk hr (by omega) hv hx hy
+    rw [List.take_of_length_le (Nat.le_of_eq hl), List.drop_of_length_le (Nat.le_of_eq hl), List.append_nil] at e
+    have ih := lanes_loop r N kk hN hk hr F hF n x1 y1 v1 (rest.drop (128 * r)) (by rw [List.length_drop, hrest']; omega)
+      hx1 hy1 hv1
+    rw [Rs.chunksMutFrom_succ, hF, laneBody]
+    simp only [e]
+    rw [ih, Impl.smixAll]
+
+/-- the lanes of `b`, whichever way the loop of `scrypt` visits them: chunk by chunk -/
+theorem lanes_all (r N kk : Nat) (hN : N = 2 ^ kk) (hk : 1 ≤ kk) (hr : 1 ≤ r) (F : List UInt8 → St3 → List UInt8 × St3)
+    (s : List UInt8 × St3) (p : Nat) (x y v : List UInt32) (B : List UInt8) (K : Nat)
+    (h : Rs.forChunksMut K B F (x, y, v) = s) (hF : ∀ c s, F c s = laneBody r N c s) (hK : K = 128 * r)
+    (hB : B.length = p * (128 * r)) (hx : x.length = 32 * r) (hy : y.length = 32 * r) (hv : v.length = N * (32 * r)) :
+    s.1 = Impl.smixAll N r p B := by
+  subst hK
+  rw [← h, Rs.forChunksMut, hB, Nat.mul_div_cancel _ (by omega : 0 < 128 * r)]
+  exact lanes_loop r N kk hN hk hr F hF p x y v B hB hx hy hv
+
+/-- lengths of freshly made buffers (`vec![0; n]`, or a half of one split at some point) -/
+macro "buf_len" : tactic =>
+  `(tactic| (simp only [List.length_take, List.length_drop, List.length_replicate, List.length_append] <;> idx))
+
+-- comparing the loop body of `scrypt` with `scryptBody` / `laneBody` must not unfold `smix`
 attribute [local irreducible] smix in
-/-- **scrypt** (generated from scrypt.rs) = the block-list model `Impl.scrypt` -/
+/-- **scrypt** (generated from scrypt.rs) = the block-list model `Impl.scrypt`.  The loop over the `p` lanes of `b` may be an
+    index loop passing `&mut b[i * 128 * r..]` or a loop over `b.chunks_exact_mut(128 * r)`; the working blocks `x`, `y` may
+    be two buffers or the halves of one (only their lengths matter). -/
 theorem scrypt_eq_impl (pw salt : Bytes) (N r p dkLen kk : Nat) (hN : N = 2 ^ kk) (hk : 1 ≤ kk) (hr : 1 ≤ r) :
     scrypt pw salt N r p dkLen = Impl.scrypt pw salt N r p dkLen := by
   unfold scrypt
   rs_unfold
   simp only [List.length_replicate]
-  generalize h : Rs.forRange 0 p _ _ = s
-  have hB : (pbkdf2Sha256 pw salt 1 (p * 128 * r)).length = p * (128 * r) := by
-    rw [pbkdf2Sha256_length, Nat.mul_assoc]
-  have hs := scrypt_all r N kk hN hk hr _ s p _ _ _ _ h
-  refine (hs ?_ hB (by simp) (by simp) (by rw [List.length_replicate, Nat.mul_comm 32 N, Nat.mul_assoc])) ▸ ?_
-  · intro i s
-    rfl
-  · rfl
+  have hB : ∀ m, m = p * (128 * r) → (pbkdf2Sha256 pw salt 1 m).length = p * (128 * r) := by
+    intro m hm
+    rw [pbkdf2Sha256_length, hm]
+  first
+    | (simp only [forStep_norm, forRange_norm]
+       generalize h : Rs.loopFrom 1 _ _ 0 _ = s
+       refine (scrypt_all r N kk hN hk hr _ s p _ _ _ _ _ ?a h ?hF ?hc ?ha (hB _ ?hm) ?hx ?hy ?hv) ▸ ?_
+       case hF => intro i s; rfl
+       case hc => idx
+       case ha => idx
+       case hm => idx
+       case hx => buf_len
+       case hy => buf_len
+       case hv => buf_len
+       rfl)
+    | (generalize h : Rs.forChunksMut _ _ _ _ = s
+       refine (lanes_all r N kk hN hk hr _ s p _ _ _ _ _ h ?hF ?hK (hB _ ?hm) ?hx ?hy ?hv) ▸ ?_
+       case hF => intro c s; rfl
+       case hK => idx
+       case hm => idx
+       case hx => buf_len
+       case hy => buf_len
+       case hv => buf_len
+       rfl)
 
 /-! ### what the `assert!`s of `scrypt` give -/
 
